@@ -170,11 +170,11 @@ def main_check(pid, tier, seed, replay_path=None):
     cfg = dict(getattr(prop, 'TIERS')[tier])
     nshards = int(os.environ.get('VERIF_SHARDS', cfg.get('shards', 4)))
     ncases = int(os.environ.get('VERIF_CASES', cfg.get('cases', 50)))
-    watchdog = int(cfg.get('watchdog_s', 1800 if tier == 'thorough' else 600))
+    watchdog = int(cfg.get('watchdog_s', 1800 if tier == 'thorough' else 1200))
     # soft time budget per shard: a shard stops generating cases when it is used up and reports what it
     # observed so far (load on the machine then reduces coverage, recorded in the evidence, instead of
     # turning the run inconclusive); the hard watchdog above still makes a hung shard inconclusive
-    budget = int(os.environ.get('VERIF_SHARD_BUDGET_S') or cfg.get('budget_s', 900 if tier == 'thorough' else 150))
+    budget = int(os.environ.get('VERIF_SHARD_BUDGET_S') or cfg.get('budget_s', 900 if tier == 'thorough' else 400))
     os.environ['VERIF_SHARD_BUDGET_S'] = str(budget)
     replay = None
     if replay_path:
